@@ -27,6 +27,22 @@ def transfer(I, fr, t, c, pth):
     nm = c.get('name')
     args = t['args']
     r_ = c.get('res') or c.get('def') or ''
+    if c.get('trait') == 'std::cmp::PartialEq' and nm in ('eq', 'ne') and len(args) == 2:
+        # `x == F::zero()` is the zero test of x
+        a, b = fr.deref_operand(args[0]), fr.deref_operand(args[1])
+        for _ in range(3):
+            if isinstance(a, exp.Ref):
+                a = fr._project(fr.store.get(a.root, exp.TOP), a.proj)
+            if isinstance(b, exp.Ref):
+                b = fr._project(fr.store.get(b.root, exp.TOP), b.proj)
+
+        def all_zero(v):
+            return PR.level(v) is not None and all(isinstance(p_, PR.Poly) and p_.is_zero() for _i, p_ in PR.leaves(v))
+        for x_, y_ in ((a, b), (b, a)):
+            if all_zero(y_) and PR.level(x_) is not None and PR.level(x_) == PR.level(y_):
+                key = ('all-zero', tuple(PR.leaves(x_)))
+                fr.storev(t['dest'], ('bool', key if nm == 'eq' else ('not', key)))
+                return True
     if c.get('trait') == FIELD:
         if nm in ('add_assign', 'sub_assign', 'mul_assign') and len(args) == 2:
             a, b = fr.deref_operand(args[0]), fr.deref_operand(args[1])
